@@ -60,21 +60,26 @@ Definition keep (now life : Z) (e : entry) : bool :=
   else e_ls e.
 Definition refresh (t : list entry) (now life : Z) : list entry := filter (keep now life) t.
 
-Definition get_or_new (t : list entry) (a : list Z) : entry * bool :=
-  match find t a with Some e => (e, false) | None => (new_entry a, true) end.
+(* the entry of a station as a packet of that station finds it: an entry whose lifetime has run out
+   (LocationTable._is_current is false; no purge has removed it yet) is not re-used - the station is unknown again *)
+Definition live (t : list entry) (a : list Z) (now life : Z) : option entry :=
+  match find t a with Some e => if keep now life e then Some e else None | None => None end.
+
+Definition get_or_new (t : list entry) (a : list Z) (now life : Z) : entry * bool :=
+  match live t a now life with Some e => (e, false) | None => (new_entry a, true) end.
 
 (* new_shb_packet (beacon and SHB): no duplicate detection; IS_NEIGHBOUR := TRUE *)
 Definition rx_shb (t : list entry) (pv : list Z) (now life : Z) : list entry :=
-  let '(e, _) := get_or_new t (pv_addr pv) in
+  let '(e, _) := get_or_new t (pv_addr pv) now life in
   let e1 := update_pv e pv in
   let e2 := mkEntry (e_addr e1) (e_pv e1) (e_set e1) true (e_ls e1) (e_dpl e1) in
   refresh (upsert t e2) now life.
 
 (* new_tsb / gbc / gac / guc / ls_request / ls_reply packet: duplicate detection on the sequence
-   number; IS_NEIGHBOUR stays as it is (FALSE for a new entry).  None = duplicate: table untouched
-   (the new-entry case cannot be a duplicate). *)
+   number; IS_NEIGHBOUR stays as it is (FALSE for a new entry, and an expired entry counts as none).
+   None = duplicate: table untouched (the new-entry case cannot be a duplicate). *)
 Definition rx_mh (t : list entry) (pv : list Z) (sn : Z) (now life dpl_len : Z) : option (list entry) :=
-  let '(e, _) := get_or_new t (pv_addr pv) in
+  let '(e, _) := get_or_new t (pv_addr pv) now life in
   match check_dup (e_dpl e) sn dpl_len with
   | None => None
   | Some d =>
